@@ -161,7 +161,9 @@ fn drive(reqs: &[Req]) -> Outcome {
         let (call, scripted) = to_call(req);
         unsafe { (*ACTIVE.with(|a| a.get())).next_ret = scripted };
         expected.push(call);
-        let (got, hits) = galloc::watch(|| unsafe {
+        // A panic inside the wrapper (e.g. an arithmetic overflow in a build
+        // with overflow checks) is a request that was not forwarded.
+        let (got, hits) = galloc::watch(|| std::panic::catch_unwind(|| unsafe {
             match call {
                 Call::Alloc { size, align } => Some(PROFILER.alloc(Layout::from_size_align_unchecked(size, align)) as usize),
                 Call::AllocZeroed { size, align } => Some(PROFILER.alloc_zeroed(Layout::from_size_align_unchecked(size, align)) as usize),
@@ -173,7 +175,16 @@ fn drive(reqs: &[Req]) -> Outcome {
                     None
                 }
             }
-        });
+        }));
+        let got = match got {
+            Ok(g) => g,
+            Err(payload) => {
+                let what = payload.downcast_ref::<&str>().map(|s| s.to_string()).or_else(|| payload.downcast_ref::<String>().cloned()).unwrap_or_default();
+                std::mem::forget(payload);
+                outcome.mismatch = Some(("wrapper-panicked".into(), format!("request #{i} {req:?}: the wrapper panicked ({what}) instead of forwarding the request")));
+                break;
+            }
+        };
         outcome.reentrant_calls += hits;
         if let Some(got) = got {
             if got != scripted && outcome.mismatch.is_none() {
@@ -221,7 +232,12 @@ thread_local! {
 
 fn check_case(case: &Case) -> Verdict {
     let outcome = match case.context {
-        Context::Established => drive(&case.reqs),
+        Context::Established => {
+            // The verdict must be a function of the case alone: start from an
+            // empty tally (the other contexts start on a new thread).
+            divan::__verif::alloc::clear();
+            drive(&case.reqs)
+        }
         Context::FreshThread => {
             let reqs = case.reqs.clone();
             match std::thread::spawn(move || {
@@ -307,21 +323,21 @@ fn groups(g: &mut Groups) {
         "established",
         60_000,
         3_000_000,
-        proptest::collection::vec(req(), 1..=200).prop_map(|reqs| Case { context: Context::Established, prime: false, reqs }),
+        || proptest::collection::vec(req(), 1..=200).prop_map(|reqs| Case { context: Context::Established, prime: false, reqs }),
         check_case,
     );
     g.prop(
         "fresh_thread",
         6_000,
         200_000,
-        proptest::collection::vec(req(), 1..=40).prop_map(|reqs| Case { context: Context::FreshThread, prime: false, reqs }),
+        || proptest::collection::vec(req(), 1..=40).prop_map(|reqs| Case { context: Context::FreshThread, prime: false, reqs }),
         check_case,
     );
     g.prop(
         "tls_destructor",
         6_000,
         200_000,
-        (proptest::collection::vec(req(), 1..=40), any::<bool>()).prop_map(|(reqs, prime)| Case { context: Context::TlsDestructor, prime, reqs }),
+        || (proptest::collection::vec(req(), 1..=40), any::<bool>()).prop_map(|(reqs, prime)| Case { context: Context::TlsDestructor, prime, reqs }),
         check_case,
     );
 }
